@@ -1,0 +1,68 @@
+//go:build verif
+
+// Contracts for the deductive verifier in /verif (govc). Comment-only: with the
+// verif tag off the compiler never sees this file, with it on it adds no code.
+package internal
+
+//@ spec sortedIdx(idx []int) bool = all(i, 0, len(idx), all(j, 0, len(idx), i >= j || idx[i] < idx[j]))
+//@ spec nonnegIdx(idx []int) bool = all(i, 0, len(idx), idx[i] >= 0)
+//@ spec denseIdx(idx []int) bool = all(i, 0, len(idx), idx[i] == i)
+//@ spec wfArr(list []string, idx []int) bool = idx == nil || (len(idx) == len(list) && nonnegIdx(idx) && sortedIdx(idx) && !denseIdx(idx))
+//@ spec keyAt(idx []int, p int) int = ite(idx == nil, p, idx[p])
+
+//@ func IndexedMax
+//@ props C33
+//@ requires wfArr(list, indexes)
+//@ ensures [empty] iff(result == -1, len(list) == 0)
+//@ ensures [upper] all(p, 0, len(list), keyAt(indexes, p) <= result)
+//@ ensures [attained] implies(len(list) > 0, any(p, 0, len(list), keyAt(indexes, p) == result))
+
+//@ func CanonicalIndexes
+//@ props C33
+//@ ensures [nil-iff-dense] iff(result == nil, denseIdx(indexes))
+//@ ensures [same] result == nil || (result == indexes)
+//@ loop 1 invariant [prefix] 0 <= i && i <= len(indexes) && all(j, 0, i, indexes[j] == j)
+//@ loop 1 decreases len(indexes) - i
+//@ pure
+
+// The postconditions of SetIndexedElem and DeleteIndexedElem state the map
+// update over the WHOLE view: together with wfArr (keys strictly increasing,
+// hence unique) "there is a position ins with key k and value val, every
+// other position keeps its key and value, and nothing else is present"
+// is exactly view(result) = view(old)[k := val].
+
+
+//@ func SetIndexedElem
+//@ props C33
+//@ returns (rl, ri)
+//@ requires [wf] wfArr(list, indexes)
+//@ requires [nonneg] k >= 0
+//@ ensures [wf] wfArr(rl, ri)
+//@ ensures [has-k] any(ins, 0, len(rl), keyAt(ri, ins) == k)
+//@ ensures [val-at-k] all(ins, 0, len(rl), implies(keyAt(ri, ins) == k, rl[ins] == val))
+//@ ensures [len] len(rl) == ite(old(any(q, 0, len(list), keyAt(indexes, q) == k)), len(list), len(list) + 1)
+//@ ensures [replaced] all(ins, 0, len(rl), implies(keyAt(ri, ins) == k && len(rl) == len(list),
+//@     all(q, 0, len(list), q == ins || (keyAt(ri, q) == old(keyAt(indexes, q)) && rl[q] == old(list[q])))))
+//@ ensures [inserted-before] all(ins, 0, len(rl), implies(keyAt(ri, ins) == k && len(rl) == len(list) + 1,
+//@     all(q, 0, ins, keyAt(ri, q) == old(keyAt(indexes, q)) && rl[q] == old(list[q]))))
+//@ ensures [inserted-after] all(ins, 0, len(rl), implies(keyAt(ri, ins) == k && len(rl) == len(list) + 1,
+//@     all(q, ins + 1, len(rl), keyAt(ri, q) == old(keyAt(indexes, q-1)) && rl[q] == old(list[q-1]))))
+//@ loop 1 invariant [fill] 0 <= i && i <= len(indexes) && len(indexes) == len(list) && all(j, 0, i, indexes[j] == j)
+//@ loop 1 decreases len(indexes) - i
+//@ modifies list[*], indexes[*]
+
+//@ func DeleteIndexedElem
+//@ props C33
+//@ returns (rl, ri)
+//@ requires [wf] wfArr(list, indexes)
+//@ ensures [wf] wfArr(rl, ri)
+//@ ensures [absent] implies(old(all(q, 0, len(list), keyAt(indexes, q) != k)),
+//@     len(rl) == len(list) && all(q, 0, len(list), keyAt(ri, q) == old(keyAt(indexes, q)) && rl[q] == old(list[q])))
+//@ ensures [present-len] implies(old(any(q, 0, len(list), keyAt(indexes, q) == k)), len(rl) == len(list) - 1)
+//@ ensures [present-before] all(del, 0, len(list), implies(old(keyAt(indexes, del)) == k,
+//@     all(q, 0, del, keyAt(ri, q) == old(keyAt(indexes, q)) && rl[q] == old(list[q]))))
+//@ ensures [present-after] all(del, 0, len(list), implies(old(keyAt(indexes, del)) == k,
+//@     all(q, del, len(rl), keyAt(ri, q) == old(keyAt(indexes, q+1)) && rl[q] == old(list[q+1]))))
+//@ loop 1 invariant [fill] 0 <= i && i <= len(indexes) && len(indexes) == len(list) && all(j, 0, i, indexes[j] == j)
+//@ loop 1 decreases len(indexes) - i
+//@ modifies list[*], indexes[*]
